@@ -204,7 +204,9 @@ def check_users(chk) -> None:
     c11.check_bph(chk)
     # chi_class: radians against radians, evaluated on one chi per cell
     c18e.check_chi_class(chk)
-    # inter-stem torsion: radians in, degrees out
+    # inter-stem torsion: (neighbour, end, end, neighbour) about the closest pair of stem ends; radians in, degrees out (evaluated; pinned form as fallback)
+    if c18e.check_interstem(chk):
+        return
     ci = repo.func(T1, "Mapping2D3D.calculate_inter_stem_parameters")
     chk.note_function(ci)
     tr = astq.first_assign(ci.node, "torsion_radians")
@@ -227,7 +229,7 @@ def run(chk) -> None:
     )
     chk.trusted = ["CPython ast", "numpy cross/dot/norm/arctan2 semantics", "IUPAC-IUB torsion table (spec/iupac_torsions.json)"]
     chk.assumptions = ["non-degenerate input (no three consecutive points collinear)", "floating-point error is not decided"]
-    chk.robust |= {"torsion-closed-form", "clip-noop", "chi-atoms", "chi-agree", "chi-bases", "backbone-atoms", "cis-trans", "cis-trans-atoms", "bph-split", "bph-class-table", "chi-class-units", "chi-dispatch", "degenerate-guard", "torsion-returned", "torsion-wrapper"}
+    chk.robust |= {"torsion-closed-form", "clip-noop", "chi-atoms", "chi-agree", "chi-bases", "backbone-atoms", "cis-trans", "cis-trans-atoms", "bph-split", "bph-class-table", "chi-class-units", "chi-dispatch", "degenerate-guard", "torsion-returned", "torsion-wrapper", "interstem-points"}
     check_function(chk, T1, "calculate_torsion_angle_coords")
     check_function(chk, T2, "calculate_torsion_angle")
     check_users(chk)
